@@ -50,6 +50,8 @@ def r1(p, rep):
                 cname = callee[-1] if callee else None
                 if cname in ALLOWED_VALUE_CONSUMERS:
                     ok, why = True, f"argument of {cname}()"
+                elif cname == "getattr" and par.args[0] is n and len(par.args) >= 2 and isinstance(par.args[1], ast.Constant) and par.args[1].value in ("shape", "dtype", "ndim"):
+                    ok, why = True, f"only .{par.args[1].value} is read (getattr form)"
                 else:
                     r = resolve_callee(p, par, fn.module)
                     if r and r[0] == "func" and r[1].module is fn.module and depth < 2:
@@ -105,6 +107,14 @@ def r1(p, rep):
                     par = getattr(n, "_parent", None)
                     ctx = par if not isinstance(par, ast.Starred) else getattr(par, "_parent", None)
                     ok, why = False, norm(ctx)[:60]
+                    if fn is f and depth == 0:
+                        # after the compiled function has returned, tracing and caching are over: looking at the
+                        # arguments there (e.g. to compare the result with them) cannot leak them into the graph
+                        fcfg = common.cfg_of(f)
+                        un = fcfg.node_for(n)
+                        if un is not None and any(fcfg.node_for(c) is not None and fcfg.node_for(c) is not un and fcfg.dominates(fcfg.node_for(c), un) for c in calls if getattr(c, "_helper", None) is None):
+                            out.append((n, True, "used after the compiled function has run"))
+                            continue
                     if isinstance(ctx, ast.Call):
                         callee = norm(ctx.func)
                         if (callee in fn_names and fn is f) or callee in compiled_params.get(id(fn), ()):
@@ -479,7 +489,14 @@ def r8(p, rep):
     rep.rule("C13.R8", "optional keywords (name, arg_index, signature) are offered to every factory parameter that can bind a keyword", "T-EXH over inspect.Parameter kinds", floor=2)
     f = p.func("_call_tensorfactory", "adapter.namedtensor_calltensorfactory")
     members = set()
-    for g in common.with_helpers(p, f):
+    # the kinds may be tested where the keywords are filtered, or once where the factory's signature is summarised
+    # (`_get_signature` and the record class it builds)
+    where = common.with_helpers(p, f)
+    try:
+        where = where + [g for g in common.with_helpers(p, p.func("_get_signature", "frontend.api"), depth=2, same_module_only=False) if g not in where]
+    except AnalysisError:
+        pass
+    for g in where:
         for n in ast.walk(g.node):
             ch = attr_chain(n) if isinstance(n, ast.Attribute) else None
             if ch and len(ch) >= 3 and ch[-3:-1] == ["inspect", "Parameter"]:
